@@ -150,6 +150,9 @@ func init() {
 	c10 := props["C10"]
 	c10.Quick = 48000
 	props["C10"] = c10
+	c06 := props["C06"]
+	c06.Quick = 48000
+	props["C06"] = c06
 	c05 := e1("fault_enumeration", 160, 8000, "one case = one simulated execution of a seeded program with ONE planned transport fault: for every base program the fault-free twin is run first, its transport calls are numbered per endpoint, and then the k-th call of each endpoint is failed for every k and every kind (read error, read error with data, write error after a partial write, peer close, local close); distinct = distinct SHA-256 of the director log; non-trivial = a message/response was delivered and a fault fired or a preemption happened")
 	c05.Enumerate = "io-faults"
 	props["C05"] = c05
